@@ -1,4 +1,28 @@
-LEAN_TARGETS = ["Aiortc.Model.Sctp.Endpoint"]
+"""C01 — reliable data channels: every message exactly once, intact, in order."""
+from harness import sctp_check as S
+
+LEAN_TARGETS = ["Aiortc.Props.C01"]
 DRIVERS = ["Sctp"]
+RULE = ("a case is a recorded schedule (deliver/drop/duplicate/reorder datagrams, fire timers, run tasks, create/send on "
+        "channels) over two REAL RTCSctpTransport endpoints under a deterministic runtime; both endpoints' inputs are "
+        "replayed through the Lean endpoint automaton (datagrams as raw bytes) and every step's outputs are compared; "
+        "distinct = distinct schedule; non-trivial = at least one message was delivered")
+
+
+class World(S.WorldComponent):
+    name = "world"
+    prop = "C01"
+    theorems = ["fragments_join", "markReceived_once", "pop_sound", "C01_ordered", "C01_unordered"]
+    mix = [("reliable", False, 3), ("reliable", True, 2), ("reliable-heavy-loss", False, 2), ("clean", False, 1),
+           ("mixed-pr", False, 1)]
+    quick = (32, 260)
+    thorough = (600, 500)
+    oracles = [S.oracle_no_crash, S.oracle_c01]
+
+
 def components(tier):
-    return []
+    return [World()]
+
+
+def classify_finding(finding, comp_name, case, what):
+    return False
